@@ -763,6 +763,21 @@ def run_check(tier, seed):
                          'non-trivial = unit list that the merge changes, wait/cancel of a proper non-empty subset of the pending set, or a request split into several non-lead requests; distinct by (case, op)')
         V.cov['distribution'] = dist
         V.cov['samples'] = samples + [ulines[4], ulines[5]]
+        # ---- S4m API-level "mix" programs (checks/apigen.gen_mix_program): several interleaving strided nonblocking requests per
+        #      rank completed by one wait, varn calls with many permuted segments, 1-3 ranks, against the abstract dataset
+        #      specification (lean/Driver/Api.lean) -- reaches vars_flatten / mgetput coalescing / merge of interleaved lists
+        import apigen, apicmp
+        mix_fail = 0
+        if os.path.exists(apicmp.APIDRV):
+            aexe = apicmp.build_apirun(tree, wd)
+            nmix = 100 if tier == 'thorough' else 30
+            mrng = SplitMix64(seed * 104729 + 17)
+            ml_, mt_, mix_fail, mn_ = apicmp.run_programs(
+                V, aexe, wd, ((apigen.gen_mix_program(mrng, 'c02_m%d.nc' % k_, n_), n_) for k_ in range(nmix) for n_ in [mrng.choice([1, 1, 2, 3])]),
+                tier, 'C02:api-mix', 'several nonblocking requests completed by one wait (or one varn call with many segments) do not give the result of the same requests executed one by one', tagprefix='mix')
+            V.cov['evaluations'] += ml_
+            V.cov['distribution'] = dict(V.cov['distribution'], mix_programs=mn_, mix_result_lines=ml_, mix_tags=mt_)
+            V.cov['distinct_nontrivial'] += len(mt_)
         # ---- S5
         new_fail = 0
         seen_sig = set()
@@ -773,7 +788,7 @@ def run_check(tier, seed):
                 new_fail += 1
                 if new_fail >= 5:
                     break
-        if new_fail == 0:
+        if new_fail == 0 and mix_fail == 0:
             if tie_diffs:
                 V.broken_tie('correspondence stream %s: model and implementation differ' % tie_diffs[0][0], [list(map(str, t)) for t in tie_diffs[:10]])
             if proof_broken:
